@@ -285,7 +285,7 @@ def run_schedule(seed, rec, nmax=4, max_ticks=40, faults_max=10, quiet_ticks=0, 
                         msg[0][0] = other; msg[0][1] = s.mapper.instances[other].nick_identifier; forged = True
                 data2 = json.dumps(msg)
                 spec = s.spec_of(typ, data2, forged)
-                with watchdog(30): s.inject(typ, data2)
+                with watchdog(10): s.inject(typ, data2)
                 rec.rec(sims, f'inject {s.k - 1} {spec}'); info['faults'].append('inject-' + how)
                 continue
             if kind == 'crash' and len(net.down) < n - 1 and s.identifier not in net.down:
@@ -305,7 +305,7 @@ def run_schedule(seed, rec, nmax=4, max_ticks=40, faults_max=10, quiet_ticks=0, 
                 held[(s.k, o.identifier)] = T[0] + rnd.randint(PERIOD // 4, 2 * PERIOD)
             elif kind == 'rpc' and s.identifier not in net.down:
                 name = rnd.choice(list(rpc_names))
-                with watchdog(30):
+                with watchdog(10):
                     if name == 'end_sync':
                         m = rnd.choice(['', f'10.0.0.{rnd.randint(1, n)}'])
                         s.rpc_call('end_sync', m)
@@ -316,7 +316,7 @@ def run_schedule(seed, rec, nmax=4, max_ticks=40, faults_max=10, quiet_ticks=0, 
         for s in list(sims):
             if s.identifier in net.down: continue
             if next_tick[s.k] <= T[0]:
-                with watchdog(30):
+                with watchdog(10):
                     if s.k not in started:
                         started.add(s.k); s.on_running(); rec.rec(sims, f'running {s.k - 1}')
                     s.tick(); rec.rec(sims, f'tick {s.k - 1}')
@@ -330,7 +330,7 @@ def run_schedule(seed, rec, nmax=4, max_ticks=40, faults_max=10, quiet_ticks=0, 
                 acts.append(('proxy', s, p))
         if acts:
             a = rnd.choice(acts)
-            with watchdog(30):
+            with watchdog(10):
                 if a[0] == 'deliver':
                     try: origin = a[1].idx.get(json.loads(a[1].inbox[0][1])[0][0])
                     except Exception: origin = None
@@ -390,6 +390,9 @@ def cluster_check(chk, prefixes, nontrivial, rule, quick_cases=40, thorough_case
                 chk.reject(f'{chk.prop}:hang', f'an implementation operation did not return: {e}', {'schedule_seed': sd, 'kwargs': sched_kwargs})
                 rec.lines = rec.lines[:a]; rec.obs = rec.obs[:a]
                 continue
+            if net.sent_to_isolated and chk.prop == 'C13':
+                a_, b_, typ = net.sent_to_isolated[0]
+                extra = list(extra) + [('C13:sent-to-isolated', f'{len(net.sent_to_isolated)} message(s) sent by {a_} to {b_} which it holds ISOLATED (first: {typ})')]
             metas.append((sd, n, opts, info, extra))
         results, model = compare(chk, rec)
         for r, (sd, n, opts, info, extra) in zip(results, metas):
